@@ -230,17 +230,23 @@ func (conn *Conn) send(call *Call) {
 		}
 		conn.pending[seq] = call
 	}
+	// Once the call is registered the reader may complete it at any moment
+	// (a response carrying its sequence number can already be on its way),
+	// and its caller may then recycle it: take what the write needs now.
+	u := *call.upgrade
+	serviceMethod := call.ServiceMethod
+	args := call.Args
 	conn.mutex.Unlock()
 	ctx := Context{}
 	ctx.Seq = seq
-	ctx.upgrade = call.upgrade
+	ctx.upgrade = &u
 	var upgradeBuffer []byte
-	if !call.upgrade.IsZero() {
+	if !u.IsZero() {
 		upgradeBuffer = getUpgradeBuffer()
-		ctx.Upgrade, _ = call.upgrade.Marshal(upgradeBuffer)
+		ctx.Upgrade, _ = u.Marshal(upgradeBuffer)
 	}
-	ctx.ServiceMethod = call.ServiceMethod
-	err := conn.codec.WriteRequest(&ctx, call.Args)
+	ctx.ServiceMethod = serviceMethod
+	err := conn.codec.WriteRequest(&ctx, args)
 	if err != nil {
 		// Only the path that removes the call from the pending table may
 		// complete it: if the reader has already completed it (its response or
@@ -249,7 +255,7 @@ func (conn *Conn) send(call *Call) {
 		owner := !isStreaming && conn.pending[seq] == call
 		if owner {
 			delete(conn.pending, seq)
-			if call.upgrade.Stream == openStream {
+			if u.Stream == openStream {
 				delete(conn.streams, seq)
 			}
 		}
